@@ -21,11 +21,15 @@ const INITIAL_THRESHOLD: usize = 100;
 
 struct Blob<const N: usize> {
     link: RefCell<Option<Cc<Blob<N>>>>,
+    /// clones of live blobs held by a garbage blob: when the garbage is destroyed they are released and the live
+    /// blobs become buffered - *during* the collection
+    held: RefCell<Vec<Cc<Blob<N>>>>,
     _bytes: [u8; N],
 }
 unsafe impl<const N: usize> Trace for Blob<N> {
     fn trace(&self, ctx: &mut Context<'_>) {
         self.link.trace(ctx);
+        self.held.trace(ctx);
     }
 }
 impl<const N: usize> Finalize for Blob<N> {}
@@ -35,7 +39,23 @@ macro_rules! handles {
         enum H { $($var(Cc<Blob<$n>>)),+ }
         impl H {
             fn new(k: usize) -> H {
-                match k { $($idx => H::$var(Cc::new(Blob { link: RefCell::new(None), _bytes: [0u8; $n] })),)+ _ => unreachable!() }
+                match k { $($idx => H::$var(Cc::new(Blob { link: RefCell::new(None), held: RefCell::new(Vec::new()), _bytes: [0u8; $n] })),)+ _ => unreachable!() }
+            }
+            #[cfg(feature = "weak")]
+            fn new_cyclic(k: usize) -> H {
+                match k { $($idx => H::$var(Cc::new_cyclic(|_w| Blob { link: RefCell::new(None), held: RefCell::new(Vec::new()), _bytes: [0u8; $n] })),)+ _ => unreachable!() }
+            }
+            #[cfg(not(feature = "weak"))]
+            fn new_cyclic(k: usize) -> H {
+                H::new(k)
+            }
+            /// stores a clone of `other` (same class) in this blob's traced `held` vector
+            fn hold(&self, other: &H) {
+                match (self, other) { $((H::$var(c), H::$var(o)) => c.held.borrow_mut().push(o.clone()),)+ _ => {} }
+            }
+            fn is_buffered(&self) -> bool {
+                let addr = match self { $(H::$var(c) => hk::box_addr(c)),+ };
+                (unsafe { hk::snapshot_at(addr) }.tracing_counter_raw >> 14) != 0
             }
             fn class(&self) -> usize { match self { $(H::$var(_) => $idx),+ } }
             fn self_link(&self) { match self { $(H::$var(c) => { *c.link.borrow_mut() = Some(c.clone()); }),+ } }
@@ -48,6 +68,10 @@ handles!(A = 1 => 0, B = 40 => 1, C = 80 => 2, D = 200 => 3, E = 700 => 4, F = 3
 #[derive(Clone, Copy, Debug, PartialEq, Eq, PartialOrd, Ord, Hash)]
 pub enum POp {
     Alloc(u8),
+    /// creation through Cc::new_cyclic
+    AllocCyclic(u8),
+    /// a garbage self-cycle that holds clones of every live blob of its class
+    GarbageHolding(u8),
     Free(u8),
     Garbage(u8),
     Buffer(u8),
@@ -115,13 +139,13 @@ impl Sys for PolicySys {
                 let last = step + 1 == hist.len();
                 let p = PERCENTS[pi as usize];
                 // A creation: predicted trigger from the observables before the call
-                let mut create = |k: u8, vs: &mut Vec<Violation>, tags: &mut Vec<&'static str>, live: &mut Vec<(H, bool)>, pending: &mut Vec<u8>| -> H {
+                let mut create = |k: u8, cyclic: bool, vs: &mut Vec<Violation>, tags: &mut Vec<&'static str>, live: &mut Vec<(H, bool)>, pending: &mut Vec<u8>| -> H {
                     let bytes = state::allocated_bytes().unwrap();
                     let buffered = state::buffered_objects_count().unwrap();
                     let th = hk::bytes_threshold().unwrap();
                     let before = state::executions_count().unwrap();
                     let predicted = auto && (bytes > th || (bt > 0 && buffered > bt as usize));
-                    let h = H::new(k as usize);
+                    let h = if cyclic { H::new_cyclic(k as usize) } else { H::new(k as usize) };
                     let d = state::executions_count().unwrap() - before;
                     if d != predicted as usize {
                         vs.push(Violation { prop: "C15", pred: "P-policy", msg: format!("creating a Cc with auto_collect={}, allocated bytes {}, byte threshold {}, buffered {}, buffered threshold {} started {} collection(s), the documented policy says {}", auto, bytes, th, buffered, if bt == 0 { "None".to_string() } else { bt.to_string() }, d, predicted as usize) });
@@ -132,7 +156,7 @@ impl Sys for PolicySys {
                         }
                         pending.clear();
                         for l in live.iter_mut() {
-                            l.1 = false;
+                            l.1 = l.0.is_buffered(); // (garbage that held clones of live blobs re-buffers them)
                         }
                         // the new object has been allocated after the collection: judge the threshold against the bytes at that time
                         // (adjust ran before the allocation), so only the shape invariants are checked here
@@ -154,14 +178,30 @@ impl Sys for PolicySys {
                 };
                 match *op {
                     POp::Alloc(k) => {
-                        let h = create(k, &mut vs, &mut tags, &mut live, &mut pending_garbage);
+                        let h = create(k, false, &mut vs, &mut tags, &mut live, &mut pending_garbage);
+                        live.push((h, false));
+                    },
+                    POp::AllocCyclic(k) => {
+                        let h = create(k, true, &mut vs, &mut tags, &mut live, &mut pending_garbage);
                         live.push((h, false));
                     },
                     POp::Garbage(k) => {
-                        let h = create(k, &mut vs, &mut tags, &mut live, &mut pending_garbage);
+                        let h = create(k, false, &mut vs, &mut tags, &mut live, &mut pending_garbage);
                         h.self_link();
                         drop(h);
                         pending_garbage.push(k);
+                    },
+                    POp::GarbageHolding(k) => {
+                        let h = create(k, false, &mut vs, &mut tags, &mut live, &mut pending_garbage);
+                        for l in live.iter_mut() {
+                            if l.0.class() == k as usize {
+                                h.hold(&l.0);
+                                l.1 = false; // cloning un-buffers
+                            }
+                        }
+                        h.self_link();
+                        drop(h);
+                        pending_garbage.push(k | 0x80);
                     },
                     POp::Free(i) => {
                         let (h, _) = live.remove(i as usize);
@@ -179,7 +219,7 @@ impl Sys for PolicySys {
                         }
                         pending_garbage.clear();
                         for l in live.iter_mut() {
-                            l.1 = false;
+                            l.1 = l.0.is_buffered();
                         }
                         threshold_invariants(&mut vs, "collect_cycles()", p);
                     },
@@ -233,6 +273,12 @@ impl Sys for PolicySys {
                 if nobj < self.max_objects {
                     succ.push(POp::Garbage(*k));
                 }
+                if cfg!(feature = "weak") && live.len() < self.max_live && nobj < self.max_objects {
+                    succ.push(POp::AllocCyclic(*k));
+                }
+                if nobj < self.max_objects && live.iter().any(|l| l.0.class() == *k as usize) {
+                    succ.push(POp::GarbageHolding(*k));
+                }
             }
             for i in 0..live.len() {
                 // symmetry: blobs of the same class and buffered flag are interchangeable
@@ -280,7 +326,7 @@ fn box_size(k: usize) -> usize {
         // Measure on a pristine collector state is not possible here (we are mid-history): derive it from the
         // layout instead: header (3 words + counters) + payload, rounded to 8
         let hdr = std::mem::size_of::<usize>() * 4 + 8; // next, prev, metadata (fat ptr = 2 words), counter marker (4) padded to 8
-        let payload = std::mem::size_of::<RefCell<Option<Cc<Blob<1>>>>>() + SIZES[k];
+        let payload = std::mem::size_of::<RefCell<Option<Cc<Blob<1>>>>>() + std::mem::size_of::<RefCell<Vec<Cc<Blob<1>>>>>() + SIZES[k];
         let sz = (hdr + payload + 7) / 8 * 8;
         s.borrow_mut()[k] = sz;
         sz
